@@ -1,8 +1,44 @@
 //! Verification hook (compiled only with `--cfg quinn_rs_quinn_verif`).
+//!
+//! Component `idle_negotiate`: the pure function `negotiate_max_idle_timeout` of
+//! connection/mod.rs (used by `set_peer_params`) and the transport error codes the lifecycle code
+//! mentions. Model: /verif coq/Model/Lifecycle.v (`negotiate`, `hstep`).
+//!
+//! Ops:
+//!   [0, x, y]   x, y = -1 for `None`, otherwise a `VarInt` (milliseconds)
+//!               -> [-1] for `None` | [microseconds of the negotiated Duration]
+//!   [1]         -> [NO_ERROR, APPLICATION_ERROR, AEAD_LIMIT_REACHED] as integers
 #![allow(missing_docs, dead_code, unused_imports, unreachable_pub, clippy::all)]
 use super::{Ops, Outs};
+use crate::{TransportErrorCode, VarInt};
 
 /// Interpret `ops` for component `comp`; `None` if `comp` is not served by this module.
-pub(crate) fn run(_comp: &str, _ops: &Ops) -> Option<Outs> {
-    None
+pub(crate) fn run(comp: &str, ops: &Ops) -> Option<Outs> {
+    if comp != "idle_negotiate" {
+        return None;
+    }
+    let cv = |v: i128| -> Option<VarInt> {
+        if v < 0 {
+            None
+        } else {
+            Some(VarInt::from_u64(v as u64).unwrap())
+        }
+    };
+    let mut outs = Outs::new();
+    for op in ops {
+        let o = match op.as_slice() {
+            [0, x, y] => match super::super::negotiate_max_idle_timeout(cv(*x), cv(*y)) {
+                None => vec![-1],
+                Some(d) => vec![d.as_micros() as i128],
+            },
+            [1] => vec![
+                u64::from(TransportErrorCode::NO_ERROR) as i128,
+                u64::from(TransportErrorCode::APPLICATION_ERROR) as i128,
+                u64::from(TransportErrorCode::AEAD_LIMIT_REACHED) as i128,
+            ],
+            _ => vec![-1000],
+        };
+        outs.push(o);
+    }
+    Some(outs)
 }
